@@ -86,7 +86,7 @@ LEVEL_TEXT = ('Generated-input exploration of setter/set_state histories (<= 12 
 LEVEL_NOTE = ('The fresh world is built by the same code (so a defect that does not depend on history is invisible here; C09-C12 cover '
               'the values themselves); the functional API was shown to be the same calculation bit-for-bit on fresh CPL/CTL worlds. '
               'Deferred-update flags are only used together with the explicit update their docstring names. Host/star has tides off.')
-CASES = {'quick': 1600, 'thorough': 48000}
+CASES = {'quick': 1600, 'thorough': 16000}
 SHARDS = {'quick': 16, 'thorough': 16}
 TIMEOUT = {'quick': 1500, 'thorough': 4 * 3600}
 SHRINK_BUDGET = (250, 120.0)
@@ -121,6 +121,9 @@ BASES = {
     'earth': {'pack': 'earth_simple', 'mass': 5.972e24, 'tidal_layers': ['Upper_Mantle', 'Lower_Mantle'], 'other_layer': 'Outer_Core'},
     'io': {'pack': 'io_simple', 'mass': 8.93e22, 'tidal_layers': ['Mantle'], 'other_layer': 'Core'},
 }
+# generator domain of the positive quantities (in_domain keeps the shrinker inside it)
+DOMAIN = {'orbital_period': (1.0, 200.0), 'orbital_frequency': (3.6e-7, 7.3e-5), 'semi_major_axis': (3.1e9, 1.0e11),
+          'spin_period': (0.31, 200.0), 'spin_frequency': (3.6e-7, 2.4e-4)}
 STALE_KINDS = ['e', 'obliquity', 'fixed_q', 'fixed_dt', 'temperature']
 # upstream -> downstream
 QUANTITY_ORDER = ['unique_tidal_frequencies', 'global_love_by_orderl', 'global_negative_imk_by_orderl',
@@ -283,6 +286,7 @@ def _case(draw, tier):
         'model': model,
         'base': draw(st.sampled_from(['earth', 'io'])),
         'rheology': draw(st.sampled_from(['maxwell', 'andrade'])) if model == 'layered' else 'maxwell',
+        'cooling': draw(st.sampled_from(['off', 'off', 'convection', 'conduction'])) if model == 'layered' else 'off',
         'blank': draw(st.sampled_from([False, False, True])),
         'sync': draw(st.booleans()),
         'obl': draw(st.booleans()),
@@ -313,8 +317,9 @@ def _case(draw, tier):
         ops.append(['world.set_state', kw, False])
     while len(ops) < n:
         ops.append(draw(_op(cfg)))
-    check = [bool(draw(st.sampled_from([True, True, True, False]))) for _ in ops]
-    check[-1] = True
+    # the invariant is evaluated after EVERY step (exact attribution of the first stale quantity to the field just written);
+    # the `check` list stays in the case format so that a replay can restrict the checked steps
+    check = [True] * len(ops)
     return {'config': cfg, 'ops': ops, 'check': check}
 
 
@@ -326,39 +331,51 @@ def fixed_cases(tier):
     """Witness histories: the two already-repaired defects and one layered temperature-only update."""
     out = []
     for model in ('cpl', 'ctl'):
-        cfg = {'model': model, 'base': 'earth', 'rheology': 'maxwell', 'blank': False, 'sync': True, 'obl': False,
+        cfg = {'model': model, 'base': 'earth', 'rheology': 'maxwell', 'cooling': 'off', 'blank': False, 'sync': True, 'obl': False,
                'trunc': 2, 'lmax': 2, 'array': False}
         out.append({'config': cfg, 'check': [True, True, True],
                     'ops': [['orbit.set_state', {'orbital_period': 50.0, 'eccentricity': 0.1}, False],
                             ['orbit.set_state', {'eccentricity': 0.3}, False],
                             ['fixed.set', {'fixed_q' if model == 'cpl' else 'fixed_dt': 50.0}, False]]})
-    cfg = {'model': 'cpl', 'base': 'io', 'rheology': 'maxwell', 'blank': True, 'sync': False, 'obl': True,
+    cfg = {'model': 'cpl', 'base': 'io', 'rheology': 'maxwell', 'cooling': 'off', 'blank': True, 'sync': False, 'obl': True,
            'trunc': 6, 'lmax': 2, 'array': True}
     out.append({'config': cfg, 'check': [True, True, True],
                 'ops': [['world.set_state', {'orbital_period': [3.0, 4.0, 5.0], 'eccentricity': [0.0, 0.1, 0.2],
                                              'spin_period': [1.0, 4.0, 2.5], 'obliquity': [0.1, 0.0, 0.3]}, False],
                         ['world.set', {'obliquity': [0.2, 0.3, 0.4]}, False],
                         ['orbit.set', {'eccentricity': [0.3, 0.2, 0.1]}, False]]})
-    cfg = {'model': 'layered', 'base': 'io', 'rheology': 'andrade', 'blank': False, 'sync': False, 'obl': True,
+    cfg = {'model': 'layered', 'base': 'io', 'rheology': 'andrade', 'cooling': 'convection', 'blank': False, 'sync': False, 'obl': True,
            'trunc': 2, 'lmax': 2, 'array': False}
     out.append({'config': cfg, 'check': [True, True, True, True],
                 'ops': [['layer.temperature', {'layer': 'tidal0', 'via': 'set_temperature', 'temperature': 1400.0}, False],
                         ['world.set_state', {'orbital_period': 50.0, 'eccentricity': 0.2, 'obliquity': 0.17, 'spin_period': 10.0}, False],
                         ['layer.temperature', {'layer': 'tidal0', 'via': 'property', 'temperature': 1650.0}, False],
                         ['world.set', {'obliquity': 0.4}, True]]})
+    # witness of KF-C13-complex-surface-temperature (known finding): after a hot upper mantle (huge convective heat flow =>
+    # very hot surface) the mantle is set colder than that left-over surface temperature => negative cooling => complex
+    # surface temperature => the next setter raises numba TypingError; a fresh world with a 1000 K mantle is fine.
+    cfg = {'model': 'layered', 'base': 'earth', 'rheology': 'andrade', 'cooling': 'convection', 'blank': False, 'sync': True,
+           'obl': False, 'trunc': 2, 'lmax': 2, 'array': False}
+    out.append({'config': cfg, 'check': [True, True, True, True],
+                'ops': [['layer.temperature', {'layer': 'tidal0', 'via': 'set_temperature', 'temperature': 2000.0}, False],
+                        ['layer.temperature', {'layer': 'tidal1', 'via': 'set_temperature', 'temperature': 2000.0}, False],
+                        ['layer.temperature', {'layer': 'tidal0', 'via': 'property', 'temperature': 1000.0}, False],
+                        ['layer.temperature', {'layer': 'tidal0', 'via': 'property', 'temperature': 1000.0}, False]]})
     return out
 
 
 def required_labels(tier):
     return (['model:' + m for m in MODELS] + ['stale:%s_only_after_freq' % k for k in STALE_KINDS]
             + ['sync:True', 'sync:False', 'obl:True', 'obl:False', 'trunc:2', 'trunc:6', 'array', 'scalar',
-               'blank:True', 'blank:False', 'rheology:maxwell', 'rheology:andrade', 'deferred', 'functional-checked'])
+               'blank:True', 'blank:False', 'rheology:maxwell', 'rheology:andrade', 'cooling:off', 'cooling:convection', 'cooling:conduction', 'deferred', 'functional-checked'])
 
 
 def in_domain(case):
     try:
         cfg = case['config']
         if cfg['model'] not in MODELS or cfg['base'] not in BASES or cfg['rheology'] not in ('maxwell', 'andrade'):
+            return False
+        if cfg.get('cooling', 'off') not in ('off', 'convection', 'conduction') or (cfg['model'] != 'layered' and cfg.get('cooling', 'off') != 'off'):
             return False
         if cfg['trunc'] not in (2, 6) or cfg['lmax'] not in (2, 3) or (cfg['lmax'] == 3 and cfg['model'] != 'layered'):
             return False
@@ -395,7 +412,7 @@ def in_domain(case):
                         return False
                     if f == 'temperature' and not 600.0 <= x <= 2100.0:
                         return False
-                    if f in ORB_KEYS + SPIN_KEYS and not x > 0.0:
+                    if f in DOMAIN and not DOMAIN[f][0] <= x <= DOMAIN[f][1]:
                         return False
             if len([f for f in kw if f in ORB_KEYS]) > 1 or len([f for f in kw if f in SPIN_KEYS]) > 1:
                 return False
@@ -452,7 +469,8 @@ def _build(cfg, fixed_q=None, fixed_dt=None, temperatures=None):
     tides = {'eccentricity_truncation_lvl': cfg['trunc'], 'max_tidal_order_l': cfg['lmax'], 'obliquity_tides_on': cfg['obl']}
     if cfg['model'] == 'layered':
         tides['model'] = 'layered'
-        layers = {name: {'is_tidally_active': True, 'rheology': {'model': cfg['rheology']}} for name in b['tidal_layers']}
+        layers = {name: {'is_tidally_active': True, 'rheology': {'model': cfg['rheology']},
+                         'cooling': {'model': cfg.get('cooling', 'off')}} for name in b['tidal_layers']}
         layers[b['other_layer']] = {'is_tidally_active': False}
         new = {'force_spin_sync': cfg['sync'], 'type': 'layered', 'tides_on': True, 'tides': tides, 'layers': layers}
     else:
@@ -780,15 +798,26 @@ def _functional(world, star, cfg):
         fixed_dt=fixed_dt, calculate_orbit_spin_derivatives=True)
     a = np.asarray(r['semi_major_axis'])
     nn = np.asarray(r['orbital_frequency'])
-    # de/dt = sqrt(1-e^2)/(n a^2 e) (M+m)/m * (dUdw - sqrt(1-e^2) dUdM) is a difference of two nearly equal numbers for small e
-    # (amplification ~1/e^2 of the last-bit noise of dUdM, dUdw): its error is judged against the size of the cancelling terms.
-    ee = np.asarray(e, dtype=float)
-    with np.errstate(all='ignore'):
-        rt = np.sqrt(1.0 - ee * ee)
-        de_scale = np.where(ee > 0.0, rt / (nn * a * a * ee) * (star.mass + world.mass) / world.mass
-                            * (rt * np.abs(r['dUdM']) + np.abs(r['dUdw'])), 0.0)
+    # The potential derivatives are sums over tidal modes with alternating signs (dUdO of a spin-locked CTL world cancels to
+    # 1e-10 of its terms), and de/dt = sqrt(1-e^2)/(n a^2 e) (M+m)/m (dUdw - sqrt(1-e^2) dUdM) is a difference of two nearly
+    # equal numbers for small e.  The two APIs may differ in the last bit of a (semi-major axis written directly vs derived
+    # from n) and of -Im k (ctl_q regrouping); such noise is judged against the size of the CANCELLING TERMS, computed here
+    # from the world's own mode table: S_X = |susceptibility|/M_host * sum_modes |term_X| * |Im k_mode|.
+    sc = _cancel_scales(world, star)
+    scales = {}
+    if sc is not None:
+        ee = np.asarray(e, dtype=float)
+        mfac = (star.mass + world.mass) / world.mass
+        with np.errstate(all='ignore'):
+            rt = np.sqrt(1.0 - ee * ee)
+            s_da = 2.0 / (nn * a) * mfac * sc['dUdM']
+            scales = {'dUdM': sc['dUdM'], 'dUdw': sc['dUdw'], 'dUdO': sc['dUdO'],
+                      'semi_major_axis_time_derivative': s_da,
+                      'orbital_motion_time_derivative': 1.5 * (nn / a) * s_da,
+                      'eccentricity_time_derivative': np.where(ee > 0.0, rt / (nn * a * a * ee) * mfac * (rt * sc['dUdM'] + sc['dUdw']), 0.0),
+                      'spin_time_derivative': star.mass * sc['dUdO'] / world.moi}
     return {
-        '_scale': {'eccentricity_time_derivative': de_scale},
+        '_scale': scales,
         'global_love_by_orderl': {str(int(k)): np.asarray(v) for k, v in r['love_number_by_orderl'].items()},
         'global_negative_imk_by_orderl': {str(int(k)): np.asarray(v) for k, v in r['negative_imk_by_orderl'].items()},
         'tidal_heating_global': np.asarray(r['tidal_heating']),
@@ -798,6 +827,37 @@ def _functional(world, star, cfg):
         'orbital_motion_time_derivative': -(3. / 2.) * (nn / a) * np.asarray(r['semi_major_axis_derivative']),
         'spin_time_derivative': np.asarray(r['spin_rate_derivative']),
     }
+
+
+def _num(v):
+    """complex / object values -> complex array so that they can be compared at all"""
+    return None if v is None else np.asarray(v, dtype=complex)
+
+
+def _where(exc):
+    """Call site of an exception raised inside the repository (deepest repository frame; numba typing errors name the
+    njit function they were typing)."""
+    from vlib.result import _repo_frame
+    msg = str(exc)
+    if 'cooling_models.py' in msg:
+        return 'cooling_models(njit typing)'
+    return _repo_frame(exc.__traceback__) or 'unknown'
+
+
+def _cancel_scales(world, star):
+    """Size of the terms that are summed (with alternating signs) into dUdM, dUdw, dUdO of a global-approx world."""
+    t = world.tides
+    terms, love, sus = t.tidal_terms_by_frequency, t.complex_love_by_unique_freq, t.tidal_susceptibility
+    if terms is None or love is None or sus is None:
+        return None
+    tot = [0.0, 0.0, 0.0]
+    for sig, by_l in terms.items():
+        k = np.abs(np.imag(np.asarray(love[sig]))) * world.tidal_scale
+        for _l, tup in by_l.items():
+            for j in range(3):
+                tot[j] = tot[j] + np.abs(np.asarray(tup[1 + j])) * k
+    f = np.abs(np.asarray(sus)) / star.mass
+    return {'dUdM': tot[0] * f, 'dUdw': tot[1] * f, 'dUdO': tot[2] * f}
 
 
 def _changed_name(changed):
@@ -822,16 +882,18 @@ def evaluate(case):
     c.label('model:' + cfg['model'], 'base:' + cfg['base'], 'sync:%s' % cfg['sync'], 'obl:%s' % cfg['obl'],
             'trunc:%d' % cfg['trunc'], 'lmax:%d' % cfg['lmax'], 'array' if cfg['array'] else 'scalar', 'blank:%s' % cfg['blank'])
     if cfg['model'] == 'layered':
-        c.label('rheology:' + cfg['rheology'])
+        c.label('rheology:' + cfg['rheology'], 'cooling:' + cfg.get('cooling', 'off'))
     with repo_call('build'):
         world, orbit, star = _build(cfg)
     model = _new_model()
     freq_seen = False
     nontrivial = False
+    pending = set()
     for i, op in enumerate(ops):
         live = world.tidal_heating_global is not None
         changed = _apply_model(model, cfg, op)
-        cname = _changed_name(changed)
+        pending |= changed            # everything written since the last step at which the invariant held
+        cname = _changed_name(pending)
         c.label('op:' + op[0])
         if op[2]:
             c.label('deferred')
@@ -862,7 +924,7 @@ def evaluate(case):
             if fresh_raises == type(err.exc).__name__:
                 c.label('both-raise:' + fresh_raises)
                 break
-            c.fail(dict(sig, clause='exception', quantity=type(err.exc).__name__, via=op[0]),
+            c.fail(dict(sig, clause='exception', quantity=type(err.exc).__name__, via=op[0], where=_where(err.exc)),
                    'history raised %s: %s (fresh world in the same state: %s). %s'
                    % (type(err.exc).__name__, err.exc, fresh_raises or 'no exception', _describe(cfg, ops, i)))
             break
@@ -881,7 +943,7 @@ def evaluate(case):
                 fobs = _observe(fworld, forbit, cfg)
         except RepoRaised as err:
             c.label('fresh-raises:' + type(err.exc).__name__)
-            c.fail(dict(sig, clause='exception', quantity=type(err.exc).__name__, via='fresh-only'),
+            c.fail(dict(sig, clause='exception', quantity=type(err.exc).__name__, via='fresh-only', where=_where(err.exc)),
                    'the history reached this state without an exception but a fresh world placed into it raised %s: %s. %s'
                    % (type(err.exc).__name__, err.exc, _describe(cfg, ops, i)))
             break
@@ -897,8 +959,14 @@ def evaluate(case):
                 break
         if bad:
             break
+        pending = set()
         if obs['tidal_heating_global'] is not None:
             c.label('live-checked')
+        # not asserted (outside the quantities the property lists), only counted: thermal side of a layered world
+        if cfg['model'] == 'layered':
+            for name in ('surface_temperature', 'insolation_heating'):
+                if not _exact(_num(getattr(world, name)), _num(getattr(fworld, name))):
+                    c.label('unlisted-differs:' + name)
         if cfg['model'] != 'layered':
             with repo_call('quick_tidal_dissipation'):
                 fun = _functional(world, star, cfg)
